@@ -29,12 +29,14 @@ open Aurora.Bmt Aurora.Cac
 variable (S : SigScheme) (H : Bytes → Bytes)
 
 /-- **Validity, exactly**: a chunk is a valid SOC iff it has at least 105 bytes, wraps at most
-    `maxSize + 8` bytes, and the signature over `H(id ‖ wrapped address)` recovers a key whose
-    20-byte address `o` satisfies `chunk address = H(id ‖ o)`. -/
+    `maxSize + 8` bytes, the signature's recovery byte is canonical (≤ 30; the `fix:` of C05), and
+    the signature over `H(id ‖ wrapped address)` recovers a key whose 20-byte address `o` satisfies
+    `chunk address = H(id ‖ o)`. -/
 theorem C05_valid_iff (seg d : Nat) (hs : 0 < seg) (stale : Bytes) (hb : stale.length = maxSize seg d)
     (c : Chunk) :
     valid S H seg d stale c = true ↔
       105 ≤ c.data.length ∧ c.data.length ≤ 97 + (maxSize seg d + 8) ∧
+      ((sigOf c.data).getD 64 0).toNat ≤ 30 ∧
       ∃ pk, S.recover (sigOf c.data) (H (idOf c.data ++ wrappedAddr H seg d c.data)) = some pk ∧
         (S.ethAddr pk).length = 20 ∧ c.addr = H (idOf c.data ++ S.ethAddr pk) :=
   valid_iff S H seg d hs stale hb c
@@ -47,11 +49,11 @@ theorem C05_valid_iff_parse (seg d : Nat) (hs : 0 < seg) (stale : Bytes) (hb : s
         c.addr = H (s.id ++ s.owner) := by
   rw [valid_iff S H seg d hs stale hb c]
   constructor
-  · rintro ⟨h1, h2, pk, hpk, h4, ha⟩
-    exact ⟨_, (fromChunk_some_iff S H seg d hs stale hb c.data _).mpr ⟨h1, h2, pk, hpk, h4, rfl⟩, h4, ha⟩
+  · rintro ⟨h1, h2, h3, pk, hpk, h4, ha⟩
+    exact ⟨_, (fromChunk_some_iff S H seg d hs stale hb c.data _).mpr ⟨h1, h2, h3, pk, hpk, h4, rfl⟩, h4, ha⟩
   · rintro ⟨s, hf, _, ha⟩
-    obtain ⟨h1, h2, pk, hpk, h4, rfl⟩ := (fromChunk_some_iff S H seg d hs stale hb c.data s).mp hf
-    exact ⟨h1, h2, pk, hpk, h4, ha⟩
+    obtain ⟨h1, h2, h3, pk, hpk, h4, rfl⟩ := (fromChunk_some_iff S H seg d hs stale hb c.data s).mp hf
+    exact ⟨h1, h2, h3, pk, hpk, h4, ha⟩
 
 /-- **Address formula**: signing produces the chunk `id ‖ sig ‖ wrapped data` at address
     `H(id ‖ owner)`, where `owner` is the key's Ethereum address and `sig` signs
@@ -67,13 +69,15 @@ theorem C05_address_formula (k : S.SK) (id : Bytes) (ch : Chunk)
 theorem C05_create_address (id owner : Bytes) : createAddress H id owner = H (id ++ owner) := rfl
 
 /-- **Round trip**: a SOC signed with key `k` over a valid wrapped chunk is valid and parses back
-    to the same id, the key's address as owner, the same signature and the same wrapped chunk. -/
+    to the same id, the key's address as owner, the same signature and the same wrapped chunk
+    (`hrid`: the signer emits a canonical recovery byte — 27/28 for `defaultSigner`). -/
 theorem C05_sign_valid_roundtrip (seg d : Nat) (hs : 0 < seg) (stale stale' : Bytes)
     (hb : stale.length = maxSize seg d) (hb' : stale'.length = maxSize seg d)
     (hrec : ∀ k m, S.recover (S.sign k m) m = some (S.pub k))
     (hsig : ∀ k m, (S.sign k m).length = 65)
     (k : S.SK) (ho : (S.ethAddr (S.pub k)).length = 20)
-    (id : Bytes) (hid : id.length = 32) (ch : Chunk) (hch : Cac.valid H seg d stale' ch = true) :
+    (id : Bytes) (hid : id.length = 32) (ch : Chunk) (hch : Cac.valid H seg d stale' ch = true)
+    (hrid : ((S.sign k (H (id ++ ch.addr))).getD 64 0).toNat ≤ 30) :
     ∃ c, sign S H k id ch = some c ∧
       fromChunk S H seg d stale c.data =
         some { id := id, owner := S.ethAddr (S.pub k), sig := S.sign k (H (id ++ ch.addr)), chunk := ch } ∧
@@ -88,12 +92,12 @@ theorem C05_sign_valid_roundtrip (seg d : Nat) (hs : 0 < seg) (stale stale' : By
       unfold wrappedAddr; rw [f3, c3]
   · dsimp only
     rw [fromChunk_some_iff S H seg d hs stale hb]
-    refine ⟨by omega, by omega, S.pub k, ?_, ho, ?_⟩
+    refine ⟨by omega, by omega, by unfold recIdOk; rw [f2]; exact hrid, S.pub k, ?_, ho, ?_⟩
     · unfold digestOf; rw [f1, f2, hw]; exact hrec _ _
     · rw [f1, f2, f3, hw]
   · rw [valid_iff S H seg d hs stale hb]
     dsimp only
-    refine ⟨by omega, by omega, S.pub k, ?_, ho, ?_⟩
+    refine ⟨by omega, by omega, by unfold recIdOk; rw [f2]; exact hrid, S.pub k, ?_, ho, ?_⟩
     · unfold digestOf; rw [f1, f2, hw]; exact hrec _ _
     · rw [f1]
 
@@ -114,6 +118,19 @@ theorem C05_tamper_address_invalid (seg d : Nat) (stale : Bytes) (c : Chunk) (ad
       have : c.addr = a := by simpa using hv
       simp [← this, hne]
 
+/-- **The repaired defect**: a signature whose recovery byte exceeds 30 (btcec's compressed-key
+    variants 31..34, which recover the *same* key as 27..30) is never valid — before the `fix:`
+    commit, xor-ing byte 96 of a signed SOC with 4 (v = 27) or 60 (v = 28) gave a second valid chunk. -/
+theorem C05_noncanonical_recid_invalid (seg d : Nat) (hs : 0 < seg) (stale : Bytes)
+    (hb : stale.length = maxSize seg d) (c : Chunk) (h : ((sigOf c.data).getD 64 0).toNat > 30) :
+    valid S H seg d stale c = false := by
+  cases hv : valid S H seg d stale c with
+  | false => rfl
+  | true =>
+    have := ((valid_iff S H seg d hs stale hb c).mp hv).2.2.1
+    unfold recIdOk at this
+    omega
+
 /-- the inputs on which `H` is evaluated by `FromChunk` + `address()` for `data` (BMT of the wrapped
     chunk, the signed digest, and the address of the recovered owner if recovery succeeds) -/
 def socInputs (seg d : Nat) (data : Bytes) : List Bytes :=
@@ -133,8 +150,8 @@ theorem same_address_same_id_owner (seg d : Nat) (hs : 0 < seg) (stale : Bytes) 
     (cf : CollisionFree H (socInputs S H seg d d1 ++ socInputs S H seg d d2)) :
     idOf d1 = idOf d2 ∧ ∃ pk1 pk2, S.recover (sigOf d1) (digestOf H seg d d1) = some pk1 ∧
       S.recover (sigOf d2) (digestOf H seg d d2) = some pk2 ∧ S.ethAddr pk1 = S.ethAddr pk2 := by
-  obtain ⟨l1, _, pk1, r1, o1, a1⟩ := (valid_iff S H seg d hs stale hb _).mp hv1
-  obtain ⟨l2, _, pk2, r2, o2, a2⟩ := (valid_iff S H seg d hs stale hb _).mp hv2
+  obtain ⟨l1, _, _, pk1, r1, o1, a1⟩ := (valid_iff S H seg d hs stale hb _).mp hv1
+  obtain ⟨l2, _, _, pk2, r2, o2, a2⟩ := (valid_iff S H seg d hs stale hb _).mp hv2
   simp only at l1 l2 r1 r2 a1 a2
   have hcol := cf (idOf d1 ++ S.ethAddr pk1) (by simp [socInputs, r1]) (idOf d2 ++ S.ethAddr pk2)
     (by simp [socInputs, r2]) (a1.symm.trans a2)
@@ -328,5 +345,35 @@ example (k : UInt8) (m m' : Bytes) (h1 : m.length = 32) (h2 : m'.length = 32)
   rw [key m h1, key m' h2] at h'
   simp only [List.cons_append, List.cons.injEq, true_and] at h'
   exact (List.append_inj h' (by rw [h1, h2])).1
+
+/-- the toy signature has a canonical recovery byte on 32-byte digests (hypothesis `hrid`) -/
+example (k : UInt8) (m : Bytes) (h : m.length = 32) : ((toySign k m).getD 64 0).toNat ≤ 30 := by
+  have : toySign k m = k :: m ++ List.replicate 32 0 := by
+    unfold toySign
+    have : (List.replicate 64 (0 : UInt8)) = List.replicate 32 0 ++ List.replicate 32 0 := by decide
+    rw [this, ← List.append_assoc]
+    exact List.take_left' (by simp [h])
+  rw [this, List.getD_eq_getElem?_getD, List.getElem?_append_right (by simp [h])]
+  simp [h]
+
+/-! A complete toy instance (1-byte hash, `seg = 1`, `d = 0`): the collision-freedom premise of the
+    tamper theorems holds for a signed chunk and the same header over another payload. -/
+def tH : Bytes → Bytes := fun x => [x.foldl (fun a b => a * 7 + b + 3) 1]
+def tid : Bytes := List.replicate 32 5
+def tw1 : Bytes := [1,0,0,0,0,0,0,0,7]
+def tw2 : Bytes := [1,0,0,0,0,0,0,0,9]
+def tsig : Bytes := toySign 11 (tH (tid ++ bmtHash tH 1 0 (tw1.take 8) (tw1.drop 8)))
+def td1 : Bytes := tid ++ tsig ++ tw1
+def td2 : Bytes := tid ++ tsig ++ tw2
+
+set_option maxRecDepth 100000 in
+example : CollisionFree tH (socInputs toyScheme tH 1 0 td1 ++ socInputs toyScheme tH 1 0 td2) := by
+  unfold CollisionFree
+  decide
+
+set_option maxRecDepth 100000 in
+example : valid toyScheme tH 1 0 [0,0] { addr := tH (tid ++ List.replicate 20 11), data := td1 } = true ∧
+    valid toyScheme tH 1 0 [0,0] { addr := tH (tid ++ List.replicate 20 11), data := td2 } = false := by
+  decide
 
 end Aurora.Soc
